@@ -1,6 +1,8 @@
 import Driver.SchemaIO
+import RadixModel.Model.SborTyped
 /-! Line-protocol driver of the schema / payload-validation model, area c22.
 ops:  reset | schema <sbor-hex (runner only)> <tokens> | val <depth> <tid-tag> <tid-n> <payload-hex> <v|u>
+    | desc <tid-tag> <tid-n> <rust type name | -> <type-expression tokens>
     | tval <depth> <tid-tag> <tid-n> <payload-hex> <rust type name (runner only)>  -/
 open Radix Radix.Proto Radix.Sbor Radix.Schema
 open Radix.SchemaIO
@@ -14,6 +16,13 @@ def stepLine (s : Option Schema) (line : String) : Option Schema × String :=
      | none => (s, "bad-op"))
   | ["val", depth, tag, n, payload, _expect] => (s, valLine s depth tag n payload)
   | ["tval", depth, tag, n, payload, _type] => (s, valLine s depth tag n payload)
+  | "desc" :: tag :: n :: _type :: ws =>
+    (match s, parseTid tag n, natTokens ws with
+     | some S, some tid, some toks =>
+       (match pTy (toks.length + 1) toks with
+        | some (ty, []) => (s, showBool (describes genEnv S tid ty))
+        | _ => (s, "bad-op"))
+     | _, _, _ => (s, "bad-op"))
   | _ => (s, "bad-op")
 
 def main : IO Unit := run stepLine none
